@@ -269,13 +269,14 @@ class Driver:
     def execute(self, op):
         """op: concrete call (dict).  Returns the trace event."""
         kind = op["op"]
-        if kind in ("allow_write", "enter") and not self.inside and not self.pending:
-            # both objects are closed and read-only here, so they are interchangeable for the model
+        if not self.inside and not self.pending:
+            # both objects are closed and read-only here, so they are interchangeable for the model -
+            # whatever comes next: a context, a read without context, a call that will be refused
             self.turns += 1
             if self.turns % 3 != 0:
                 self.tdf, self.other = self.other, self.tdf
         t = self.tdf
-        ev = dict(op=kind, t=0, u=0, sz=0, fmt=0, c=0, cok=True, bad="none", cd=0, md=0, leak=False)
+        ev = dict(op=kind, t=0, u=0, sz=0, fmt=0, c=0, cok=True, bad="none", cd=0, md=0, leak=False, what="", rv=NA)
         self.copy_leak = False
         call = None
         if kind in ("add", "replace", "set"):
@@ -317,7 +318,10 @@ class Driver:
         elif kind == "remove":
             ev["t"] = op["rt"]
             if op.get("by") == "block":
-                probe = blocks.make_block(op["rt"], 0, 0)
+                # a block OBJECT of the type instead of the type: its content (and size) is not the
+                # stored block's - smaller in one history, larger in the next
+                self.turns += 1
+                probe = blocks.make_block(op["rt"], 0 if self.turns % 2 else 4, 0)
                 call = lambda: t.remove_block(probe)  # noqa: E731
             else:
                 call = lambda: t.remove_block(BlockType(op["rt"]))  # noqa: E731
@@ -339,7 +343,22 @@ class Driver:
                     err = RuntimeError("boom")
                     t.__exit__(RuntimeError, err, None)
         else:
-            call = self._reader(op)
+            reader = self._reader(op)
+            ev["what"] = op["what"]
+            ev["t"] = op.get("rt", 0)
+            if (op["what"] == "has" and op.get("rt") not in blocks.HAS) or (op["what"] == "getter" and op.get("rt") not in blocks.GETTER):
+                ev["what"] = op["what"] + "_na"     # this type has no such convenience property
+
+            def call():
+                # what the read returns is part of the observation (presence, count, content identity)
+                out = reader()
+                w = op["what"]
+                if w == "has":
+                    ev["rv"] = 1 if out else 0
+                elif w == "len":
+                    ev["rv"] = int(out)
+                elif w in ("get_type", "item", "getter"):
+                    ev["rv"] = self.block_uid(out)
         res = dict(ok=True, mro=[])
         try:
             with guarded():
